@@ -6,6 +6,7 @@ Every theorem is about the definitions of `GPVerif.Model.MVN` that `drivers/C10.
 universally quantified.  Real-analysis statements (`Real.log`, Gaussian measure) are over `ℝ`.
 -/
 import GPVerif.Bridge.MVN
+import GPVerif.Gen.MVN
 import Mathlib.Analysis.SpecialFunctions.Log.Basic
 import Mathlib.Analysis.SpecialFunctions.Pow.Real
 import Mathlib.Analysis.SpecialFunctions.Sqrt
@@ -516,5 +517,227 @@ example : (DMat.ofMatrix !![(1 : ℚ), 1; 1, -1]).toMatrix * (DMat.ofMatrix !![(
 example : ∃ tr quad ratio : ℚ, klClosedParts? (DMat.ofMatrix !![(2 : ℚ), 1; 1, 2]) (DMat.ofMatrix !![(2 : ℚ), 1; 1, 2])
     (DMat.ofMatrix !![(1 : ℚ); 1]) (DMat.ofMatrix !![(1 : ℚ); 1]) = some (tr, quad, ratio) :=
   ⟨2, 0, 1, by decide +kernel⟩
+
+/-! ## The regenerated definitions (`Gen/MVN.lean`, translator G7, rebuilt from the Python source on every run)
+equal the specifications -/
+
+section gen
+open GenMVN
+
+/-! ### (a) kl_mvn_mvn -/
+
+/-- The generated `inv_quad` call is the model's code form: `Σq` is solved, the root of `Σp` is stacked after the
+column `μp − μq`. -/
+theorem gen_kl_code_form (covar : Side → DMat n n α) (mup muq : DMat n 1 α) (R : DMat n m α) :
+    klTracePlusInvQuadForm? covar mup muq R = klCode? (covar Side.q) mup muq R ∧
+    klSolveSide = Side.q ∧ klRootSide = Side.p := ⟨rfl, rfl, rfl⟩
+
+/-- The generated scalar assembly is the model's (`½`, both log-determinants with their signs, the `−k`). -/
+theorem gen_kl_assembly (ld : Side → α) (tpq k : α) :
+    klRes ld tpq k = klAssemble (ld Side.q) (ld Side.p) tpq k := by
+  unfold klRes klAssemble; ring
+
+/-- **Generated KL = closed form**: for every root `R` of the covariance of the operand the code takes the
+root of, the generated expression is `½[tr(Σq⁻¹Σp) + ΔμᵀΣq⁻¹Δμ − k + ld q − ld p]`. -/
+theorem gen_kl_eq_closed_form (covar : Side → DMat n n α) (mup muq : DMat n 1 α) (R : DMat n m α)
+    (hR : R.toMatrix * R.toMatrixᵀ = (covar klRootSide).toMatrix) (ld : Side → α) (k code tr quad ratio : α)
+    (hc : klTracePlusInvQuadForm? covar mup muq R = some code)
+    (hk : klClosedParts? (covar Side.p) (covar Side.q) mup muq = some (tr, quad, ratio)) :
+    klRes ld code k = (1 / 2) * (tr + quad - k + ld Side.q - ld Side.p) := by
+  have h := kl_code_form_eq_closed_form (covar Side.p) (covar Side.q) mup muq R hR code tr quad ratio
+    ((gen_kl_code_form covar mup muq R).1 ▸ hc) hk
+  rw [gen_kl_assembly, h]; unfold klAssemble; ring
+
+/-! ### (b) log_prob -/
+
+/-- The generated assembly is the model's, the generated solve is the certified quadratic form of `value − mean`. -/
+theorem gen_logprob_assembly (q ld k l : α) (S : DMat n n α) (v mu : DMat n 1 α) :
+    logProbRes q ld k l = logProbAssemble q ld (k * l) ∧
+    logProbInvQuad? S v mu = quadForm? S (v.sub mu) ∧
+    (∀ qq d, logProbParts? S mu v = some (qq, d) → logProbInvQuad? S v mu = some qq) := by
+  refine ⟨by unfold logProbRes logProbAssemble; ring, rfl, ?_⟩
+  intro qq d h
+  unfold logProbParts? at h
+  show quadForm? S (v.sub mu) = some qq
+  cases hq : quadForm? S (v.sub mu) with
+  | none => simp [hq] at h
+  | some q' =>
+    cases hd : det? S with
+    | none => simp [hq, hd] at h
+    | some d' =>
+      simp only [hq, hd, Option.bind_eq_bind, Option.bind_some, Option.some.injEq, Prod.mk.injEq] at h
+      rw [h.1]
+
+/-- The generated `padded_batch_shape` and repeat factors are the model's (all ranks, all shapes). -/
+theorem gen_logprob_repeat (ds cs : List Nat) :
+    logProbPadded ds cs = padBatch ds.length cs ∧ logProbRepeat ds cs = repeatFactors ds cs ++ [1, 1] ∧
+    logProbBranch ds cs = (if ds = cs then 0 else if ds.length < cs.length then 1 else 2) := by
+  have hp : logProbPadded ds cs = padBatch ds.length cs := by
+    unfold logProbPadded padBatch
+    have : ds.length + 1 + 1 - (cs.length + 2) = ds.length - cs.length := by omega
+    rw [this]
+  refine ⟨hp, ?_, ?_⟩
+  · unfold logProbRepeat repeatFactors; rw [hp]
+  · unfold logProbBranch; by_cases h : ds = cs <;> simp [h]
+
+/-! ### (c) __getitem__ -/
+
+/-- The generated if/elif chain is the specified dispatch. -/
+theorem gen_getitem_dispatch (l d : Nat) (e : Bool) (last : Idx) :
+    getitemDispatch l d e last = dispatchSpec l d e last := by
+  unfold getitemDispatch dispatchSpec
+  have h1 : (((l : Int) ≤ (d : Int) - 1) ∧ e = false) ↔ (l + 1 ≤ d ∧ e = false) := by
+    constructor <;> rintro ⟨a, b⟩ <;> exact ⟨by omega, b⟩
+  have h2 : ((l : Int) > (d : Int)) ↔ l > d := by omega
+  simp only [h1, h2]
+  cases last <;> simp [Idx.isInt, Idx.isSlice, Idx.isEllipsis]
+
+/-- The ellipsis pre-pass: untouched unless the index is longer than the mean's rank and contains an ellipsis;
+then the ellipses are dropped and a too-short remainder is an IndexError. -/
+theorem gen_getitem_pre (l d ne : Nat) (hne : ne ≤ l) :
+    getitemPre l d ne = if l > d ∧ 0 < ne then (if l - ne < d then none else some (l - ne)) else some l := by
+  unfold getitemPre
+  have h1 : ((l : Int) > (d : Int) ∧ ne > 0) ↔ (l > d ∧ 0 < ne) := by omega
+  have h2 : ((l : Int) - (ne : Int) < (d : Int)) ↔ l - ne < d := by omega
+  simp only [h1, h2]
+
+theorem range_getD (n j : Nat) (h : j < n) : (List.range n).getD j 0 = j := by
+  simp [List.getD_eq_getElem?_getD, h]
+
+theorem map_range_getD (n : Nat) (ps : List Nat) (h : ∀ p ∈ ps, p < n) :
+    ps.map (fun j => (List.range n).getD j 0) = ps := by
+  induction ps with
+  | nil => rfl
+  | cons a t ih =>
+    simp only [List.map_cons]
+    rw [range_getD n a (h a (by simp)), ih (fun p hp => h p (by simp [hp]))]
+
+/-- **Every event-indexing branch of the generated `__getitem__` reads the marginal**: for all sizes `n`, all
+index/rank configurations that reach an event branch, every accepted last index (int, slice, index list), the
+tuple the branch indexes the covariance operator with denotes rows = columns = the normalised positions of
+`last_idx`. -/
+theorem gen_getitem_is_marginal (n l d : Nat) (e : Bool) (last : Idx) (sel : Sel)
+    (h1 : ¬ (l + 1 ≤ d ∧ e = false)) (h2 : ¬ l > d) (hs : normDim n last = some sel) :
+    covSelPositions n last (getitemCov (getitemDispatch l d e last)) = some (sel, sel) := by
+  rw [gen_getitem_dispatch]
+  unfold dispatchSpec
+  rw [if_neg h1, if_neg h2]
+  cases last with
+  | int i => simp [getitemCov, covSelPositions, tokSel, hs]; cases sel <;> simp_all [normDim]
+  | slice s t st => simp [getitemCov, covSelPositions, tokSel, hs]
+  | ellipsis => simp [normDim] at hs
+  | list is =>
+    have hk : ∃ ps, sel = Sel.keep ps := by
+      simp only [normDim, Option.map_eq_some_iff] at hs
+      obtain ⟨ps, _, rfl⟩ := hs; exact ⟨ps, rfl⟩
+    obtain ⟨ps, rfl⟩ := hk
+    have hb : ∀ p ∈ ps, p < n := normDim_in_range n _ _ hs
+    have hm : ps.map (fun j => (List.range n)[j]?.getD 0) = ps := by
+      conv_rhs => rw [← List.map_id ps]
+      apply List.map_congr_left
+      intro a ha; simp [hb a ha]
+    simp [getitemCov, covSelPositions, tokSel, hs, hm]
+
+/-- The ellipsis branch keeps the whole covariance. -/
+theorem gen_getitem_ellipsis (n l d : Nat) (e : Bool) (h1 : ¬ (l + 1 ≤ d ∧ e = false)) (h2 : ¬ l > d) :
+    covSelPositions n Idx.ellipsis (getitemCov (getitemDispatch l d e Idx.ellipsis)) =
+      some (Sel.keep (List.range n), Sel.keep (List.range n)) := by
+  rw [gen_getitem_dispatch]; unfold dispatchSpec; rw [if_neg h1, if_neg h2]; rfl
+
+/-- Batch-only and too-many-indices branches: the whole index goes to the operator / the branch raises. -/
+theorem gen_getitem_other_branches :
+    getitemCov Br.batchOnly = CovSel.index [Tok.whole] ∧ getitemCov Br.tooMany = CovSel.raise := ⟨rfl, rfl⟩
+
+/-- Sub-matrix at equal row and column positions is the marginal covariance of the model. -/
+theorem subMat_eq_margCov (S : DMat n n α) (ps : List Nat) : subMat? S ps ps = margCov? S ps := by
+  unfold subMat? margCov?
+  by_cases h : ∀ p ∈ ps, p < n
+  · rw [dif_pos ⟨h, h⟩, dif_pos h]
+  · rw [dif_neg (fun hh => h hh.1), dif_neg h]
+
+/-! ### (d) affine operations, variance clamp, confidence region, shapes -/
+
+/-- The generated `__mul__` / `__truediv__` / `__add__` / `__radd__` / `add_jitter` formulas are the model's
+(`a·μ`, `a²·Σ`, `1/a`, sums, `μ + b`, `Σ` unchanged, `Σ + εI`) — with `affine_laws` these are the laws of the
+random vector. -/
+theorem gen_affine_laws (c : α) (mu mu2 : DMat n 1 α) (S S2 : DMat n n α) :
+    mulMean c mu = scaleMean c mu ∧ mulCov c S = scaleCov c S ∧ divFactor c = 1 / c ∧
+    addMean mu mu2 = sumMean mu mu2 ∧ addCov S S2 = sumCov S S2 ∧
+    addScalarMean c mu = shiftMean c mu ∧ addScalarCov S = S ∧ addJitterCov c S = jitterCov c S ∧
+    (mulIdentity : α) = 1 ∧ (raddIdentity : α) = 0 := by
+  refine ⟨rfl, ?_, rfl, rfl, rfl, rfl, rfl, rfl, rfl, rfl⟩
+  unfold mulCov scaleCov; rw [pow_two]
+
+/-- The shortcuts `d * 1 → d` and `0 + d → d` agree with the formulas. -/
+theorem gen_affine_identity_sound (mu : DMat n 1 α) (S : DMat n n α) :
+    (scaleMean (mulIdentity : α) mu).toMatrix = mu.toMatrix ∧ (scaleCov (mulIdentity : α) S).toMatrix = S.toMatrix ∧
+    (shiftMean (raddIdentity : α) mu).toMatrix = mu.toMatrix := by
+  refine ⟨by simp [scaleMean, mulIdentity], by simp [scaleCov, mulIdentity], ?_⟩
+  have hc : (colVec (fun _ => (0 : α)) : DMat n 1 α).toMatrix = Matrix.of fun _ _ => (0 : α) :=
+    DMat.toMatrix_ofMatrix _
+  simp only [shiftMean, raddIdentity, DMat.toMatrix_add, hc]
+  ext i j
+  simp
+
+/-- The generated clamp is `max(·, min_variance)` elementwise; the lazy branch reads the diagonal. -/
+theorem gen_variance_clamp {β : Type} [Field β] [LinearOrder β] (floor : β) (v : Fin n → β) (S : DMat n n β) :
+    varianceClamp floor v = varianceClamped floor v ∧ varianceLazy S = variance S := by
+  refine ⟨?_, rfl⟩
+  unfold varianceClamp varianceClamped
+  by_cases h : ∃ i, v i < floor
+  · rw [if_pos h]
+  · rw [if_neg h]
+    funext i
+    have : floor ≤ v i := not_lt.mp (fun hh => h ⟨i, hh⟩)
+    exact (max_eq_left this).symm
+
+/-- The generated confidence region is `μ ∓ 2σ`. -/
+theorem gen_confidence_region (mu sd : Fin n → α) :
+    GenMVN.confidenceRegion mu sd = MVN.confidenceRegion mu sd := by
+  unfold GenMVN.confidenceRegion MVN.confidenceRegion
+  refine Prod.ext ?_ ?_ <;> funext i <;> simp only <;> ring
+
+/-- `expand` targets `batch_size + (event dims of the operand)`; `unsqueeze` accepts `−nb−1 ≤ dim ≤ nb` and
+normalises negatives; `get_base_samples` has shape `sample + batch + base`. -/
+theorem gen_shape_ops (bs b ss ks : List Nat) (k k' nb : Nat) (dim : Int) :
+    expandLocShape bs (b ++ [k]) = bs ++ [k] ∧ expandCovShape bs (b ++ [k, k']) = bs ++ [k, k'] ∧
+    unsqueezeDim nb dim = unsqueezeDimSpec nb dim ∧ GenMVN.extendedShape ss bs ks = MVN.extendedShape ss bs ks := by
+  exact ⟨by simp [expandLocShape], by simp [expandCovShape], rfl, rfl⟩
+
+theorem unsqueezeDim_in_range (nb : Nat) (dim r : Int) (h : unsqueezeDim nb dim = some r) : 0 ≤ r ∧ r ≤ nb := by
+  rw [(gen_shape_ops [] [] [] [] 0 0 nb dim).2.2.1] at h
+  unfold unsqueezeDimSpec at h
+  split at h
+  · simp at h
+  · have := Option.some.inj h
+    split at this <;> omega
+
+/-! ### (e) rsample -/
+
+/-- **The two `permute`s of `rsample` are inverse to each other** (all ranks): output axis `j` of the result reads,
+through both permutations, axis `j` of the viewed base samples — so entry `(s, b, i)` of the result is
+`loc[b,i] + Σ_j root[b,i,j]·eps[s,b,j]`; the core is the model's `μ + L ε`; `sample_shape` is recovered and the final
+view restores `sample_shape + loc.shape`. -/
+theorem gen_rsample_index_map (d : Nat) :
+    (∀ j, j ≤ d → permSource (rsamplePermIn d) (permSource (rsamplePermOut d) j) = j) ∧
+    (rsamplePermIn d).length = d + 1 ∧ (rsamplePermOut d).length = d + 1 := by
+  refine ⟨?_, by simp [rsamplePermIn], by simp [rsamplePermOut]⟩
+  intro j hj
+  unfold permSource rsamplePermIn rsamplePermOut
+  cases j with
+  | zero =>
+    simp [List.getD_eq_getElem?_getD]
+  | succ i =>
+    have hi : i < d := by omega
+    simp [List.getD_eq_getElem?_getD, List.getElem?_append, hi]
+    omega
+
+theorem gen_rsample_core (mu : DMat n 1 α) (L : DMat n m α) (eps : DMat m 1 α) (ss loc bs : List Nat) (k : Nat) :
+    (rsampleCore mu L eps).toMatrix = (rsample mu L eps).toMatrix ∧
+    rsampleSampleShape (ss ++ loc) loc.length = ss ∧ rsampleOutShape ss loc = ss ++ loc ∧
+    rsampleViewBatch (bs ++ [k]) = bs := by
+  refine ⟨by simp [rsampleCore, rsample, add_comm], by simp [rsampleSampleShape], rfl, by simp [rsampleViewBatch]⟩
+
+end gen
 
 end C10
